@@ -166,6 +166,17 @@ CHECKS: dict[str, dict] = {
         "concurrent first calls; every edge is replayed through the real public API on a real pty.",
         design_ref="DESIGN.md 3 C15, notes/C15.md",
     ),
+    "C16": dict(
+        technique="TLA+ heap model of render-argument objects over class trees (RenderArgs.tla: directional Value, "
+        "Accepts, HeapImmutable) explored by TLC; every edge replayed on dynamically created render and "
+        "namespace classes; recorded histories validated by TLC",
+        text="For every class tree up to depth 3 / branching 2 TLC explores histories of constructor / update / "
+        "convert / | / + operations over a heap with shared default sets and checks precedence, acceptance, "
+        "Eq/hash consistency and that no existing object ever changes; every edge is executed on real "
+        "dynamically created classes comparing values, exceptions, all live objects and pairwise ==/hash; "
+        "the namespace-class rules are a replayed acceptance table.",
+        design_ref="DESIGN.md 3 C16, notes/C16.md",
+    ),
     "C17": dict(
         technique="TLA+ transcription of the canvas trim computation (UrwidCanvas.tla) checked exhaustively and "
         "replayed into the real _ti_calc_trim; every row of real canvas.content() calls judged by TLC on "
